@@ -56,7 +56,7 @@ class FaultyFile:
         o = self._o
         s = o.sched
         s.point('fs.' + op, os.path.basename(self._name))
-        if o.fault_on('fs:' + op):
+        if o.fault_on('fs:' + op, self._name):
             if s.choose(2, 'fs:' + op):
                 e = InjectedOSError(f'injected {op} fault on {os.path.basename(self._name)}')
                 o.note_injected(e, 'fs:' + op)
@@ -64,17 +64,19 @@ class FaultyFile:
         s.emit('fs.' + op, file=os.path.basename(self._name), **kw)
 
     def write(self, data):
-        self._site('write', n=len(data), pos=self._f.tell())
         o = self._o
         o.writers[self._name] = o.writers.get(self._name, 0) + 1
+        if o.writers[self._name] > o.max_writers:
+            o.max_writers = o.writers[self._name]
         try:
+            self._site('write', n=len(data), pos=self._f.tell())
             return self._f.write(data)
         finally:
             o.writers[self._name] -= 1
 
     def read(self, n=-1):
         self._o.sched.point('fs.read', os.path.basename(self._name))
-        if self._o.fault_on('fs:read'):
+        if self._o.fault_on('fs:read', self._name):
             if self._o.sched.choose(2, 'fs:read'):
                 e = InjectedReadError('injected source read fault')
                 self._o.note_injected(e, 'fs:read')
@@ -128,8 +130,14 @@ class FaultyOSUtils(OSUtils):
         self.special = set(special)
         self.special_sinks = {}
         self.writers = {}
+        self.max_writers = 0
 
-    def fault_on(self, label):
+    only_prefix = None
+
+    def fault_on(self, label, name=None):
+        if self.only_prefix is not None and name is not None:
+            if not os.path.basename(str(name)).startswith(self.only_prefix):
+                return False
         for s in self.fault_sites:
             if label.startswith(s):
                 return True
@@ -143,7 +151,7 @@ class FaultyOSUtils(OSUtils):
     def _site(self, op, name, **kw):
         s = self.sched
         s.point('fs.' + op, os.path.basename(str(name)))
-        if self.fault_on('fs:' + op):
+        if self.fault_on('fs:' + op, name):
             if s.choose(2, 'fs:' + op):
                 e = InjectedOSError(f'injected {op} fault on {os.path.basename(str(name))}')
                 self.note_injected(e, 'fs:' + op)
